@@ -35,7 +35,7 @@ def _flag(x):
     return x in ('1', 'true')
 
 
-def check_wait_group(ctx, fb, rmode, rreset):
+def check_wait_group(ctx, fb, rmode, rreset, rwait=None):
     n = 0
     WG = 'yaclib::WaitGroup'
     for f in sorted(fb.fn.values(), key=lambda f: f.full):
@@ -87,6 +87,36 @@ def check_wait_group(ctx, fb, rmode, rreset):
                 ctx.report(rmode, key, f.where, 'the %s form %s: consumed cores must be released exactly once by the '
                            'group, attached ones never' % ('consume' if want else 'attach', bad),
                            'instantiation: ' + f.full[:300])
+        elif f.n in ('Wait', 'WaitFor', 'WaitUntil') and rwait is not None:
+            # the blocking forms answer through the event only: the counter reaches zero BEFORE the last Done() runs
+            # Set on the event, so a waiter that returns on the counter alone lets its owner destroy / Reset the group
+            # while Set is still about to write to it
+            key = 'R-WGWAIT WaitGroup::%s' % f.n
+            n += 1
+            ctx.instance(rwait, key + ' :: ' + f.cls[:80], None)
+            ev = [c for c in f.calls() if c['cn'].split('::')[-1] in ('Wait', 'WaitFor', 'WaitUntil', 'TimedWait') and
+                  c['cn'] != f.qn]
+            if len(ev) != 1:
+                ctx.broken('R-WGWAIT: %s does not call exactly one wait of its event' % f.full[:120])
+            cid = ev[0]['i']
+            if f.n == 'Wait':
+                def is_wait(b, i, e):
+                    return isinstance(e, int) and (e == cid or cid in set(f.descendants(e)))
+                if f.cfg.reaches_exit_without((f.cfg.entry, -1), is_wait) is not None:
+                    ctx.report(rwait, key, f.where, 'a path of Wait() returns without having waited on the event (it '
+                               'trusts something else, e.g. the counter): the last Done() may still be in front of Set(), '
+                               'which then writes to a group its owner already destroyed or Reset', 'instantiation: ' +
+                               f.full[:300])
+            else:
+                rets = [x for x in f.own_nodes() if x['k'] == 'ReturnStmt' and x.get('ch')]
+                r0 = f.sn(rets[0]['ch'][0]) if len(rets) == 1 else None
+                while r0 is not None and r0['k'] in ('ImplicitCastExpr', 'ExprWithCleanups', 'ParenExpr',
+                                                     'MaterializeTemporaryExpr') and r0.get('ch'):
+                    r0 = f.sn(r0['ch'][0])
+                if r0 is None or r0['i'] != cid:
+                    ctx.report(rwait, key, f.where, '%s does not return the answer of the event as is: "true" can be '
+                               'reported while the last Done() is still in front of Set()' % f.n,
+                               'instantiation: ' + f.full[:300])
         elif f.n == 'Reset':
             key = 'R-WGRESET WaitGroup::Reset'
             n += 1
